@@ -573,7 +573,10 @@ def rule_effects(ctx: Ctx, repo: Repo) -> None:
     ctx.floor("R-C03.1", "functions of the tracer's call graph that handle program values", analysed, 7)
     ctx.floor("R-C03.1", "classified operations on program values", cl.ops, 8)
     # the type collection entry points must be among them
-    for need in ("monkeytype.typing.get_type", "monkeytype.typing.get_dict_type", selector_fq, "monkeytype.tracing.get_func_in_mro", "monkeytype.tracing.get_func"):
+    needs = ["monkeytype.typing.get_type", "monkeytype.typing.get_dict_type"]
+    if hostile is None:
+        needs += [selector_fq, "monkeytype.tracing.get_func_in_mro", "monkeytype.tracing.get_func"]  # otherwise decided on the look-up worlds
+    for need in needs:
         if need not in ta.fns:
             raise AnalysisError(f"R-C03.1: {need} is no longer reached by the taint analysis")
     ctx.note("tainted locals per function: " + "; ".join(f"{fq.split('.', 1)[1]}: {sorted(k for k, v in ta.locals[fq].items() if v >= T.CONT)}" for fq in sorted(ta.locals) if any(v >= T.CONT for v in ta.locals[fq].values())))
@@ -953,10 +956,61 @@ def _is_logging_call(fi: FunctionInfo, c: ast.Call) -> bool:
     return False
 
 
-def _guarded_ids(fn_node: ast.AST) -> Set[int]:
-    """ids of the nodes under a try whose catch-all handler does not re-raise"""
+_SWALLOW_CACHE: Dict[str, bool] = {}
+
+
+def _swallowing_context_manager(repo: Repo, fi: FunctionInfo, e: ast.AST) -> bool:
+    """`with e:` where e is an instance of a class of the package whose __exit__ - interpreted - returns a true value for an
+    Exception raised in the block (RuntimeError stands for all) without raising itself: the block's failures go no further"""
+    from mtsa.absint import K, S, State
+    from .common import RepoInterp
+    call: Optional[ast.AST] = e
+    if isinstance(e, ast.Name):
+        binds = [x.value for x in walk_no_nested(fi.node) if isinstance(x, ast.Assign) and len(x.targets) == 1 and isinstance(x.targets[0], ast.Name) and x.targets[0].id == e.id]
+        call = binds[0] if len(binds) == 1 else fi.module.constants.get(e.id) if not binds else None
+    if not (isinstance(call, ast.Call) and isinstance(call.func, ast.Name)):
+        return False
+    ci = repo.resolve_class(fi.module, call.func.id)
+    ex = repo.method(ci, "__exit__") if ci is not None else None
+    if ci is None or ex is None or repo.method(ci, "__enter__") is None:
+        return False
+    if ci.fq not in _SWALLOW_CACHE:
+        verdicts = []
+        for exc_name in ("RuntimeError", "KeyError"):
+            def hook(c, fname, fval, args, kwargs, st):
+                if (fname or "").startswith("logging.") or (isinstance(c.func, ast.Attribute) and c.func.attr in LOG_METHODS):
+                    return K(None)
+                return None
+            ri = RepoInterp(repo, ex, call_hook=hook, may_fork=(), heap=True)
+            st0 = State()
+            obj = st0.alloc("obj", {"__class__": K(ci.fq)})
+            ps = ex.positional_params()
+            env = {ps[0]: obj}
+            for p_, v_ in zip(ps[1:], (S("excclass:" + exc_name), S("exc:" + exc_name), S("traceback"))):
+                env[p_] = v_
+            if ex.node.args.vararg is not None and len(ps) == 1:
+                env[ex.node.args.vararg.arg] = K((S("excclass:" + exc_name), S("exc:" + exc_name), S("traceback")))
+            try:
+                outs = ri.run(env, carry=st0)
+            except AnalysisError:
+                verdicts.append(False)
+                continue
+            ok = len(outs) == 1 and outs[0].term is not None and outs[0].term[0] == "return" and ri.interp._value_truth(ex.node, outs[0].term[1], outs[0]) is True
+            verdicts.append(ok)
+        _SWALLOW_CACHE[ci.fq] = all(verdicts)
+    return _SWALLOW_CACHE[ci.fq]
+
+
+def _guarded_ids(fn_node: ast.AST, repo: Optional[Repo] = None, fi: Optional[FunctionInfo] = None) -> Set[int]:
+    """ids of the nodes under a try whose catch-all handler does not re-raise - or under a `with` on a context manager of the
+    package that swallows the block's exceptions (when repo and fi are given)"""
     out: Set[int] = set()
     for t in walk_no_nested(fn_node):
+        if isinstance(t, ast.With) and repo is not None and fi is not None and any(_swallowing_context_manager(repo, fi, it.context_expr) for it in t.items):
+            for s in t.body:
+                for y in ast.walk(s):
+                    out.add(id(y))
+            continue
         if not isinstance(t, ast.Try):
             continue
         hs = [h for h in t.handlers if _is_catch_all(h)]
@@ -971,7 +1025,7 @@ def _guarded_ids(fn_node: ast.AST) -> Set[int]:
 def _uncontained_calls(repo: Repo, fi: FunctionInfo, nodes: List[ast.AST], depth: int = 0, seen: Optional[Set[str]] = None) -> List[Tuple[FunctionInfo, ast.Call]]:
     """calls among `nodes` (statements/expressions of fi) that can raise into fi's caller"""
     seen = set() if seen is None else seen
-    guarded = _guarded_ids(fi.node)
+    guarded = _guarded_ids(fi.node, repo, fi)
     bad: List[Tuple[FunctionInfo, ast.Call]] = []
     for root in nodes:
         for c in [x for x in ast.walk(root) if isinstance(x, ast.Call)]:
@@ -1069,7 +1123,7 @@ def rule_exit_contained(ctx: Ctx, repo: Repo) -> None:
 
 def _param_uses_contained(repo: Repo, fi: FunctionInfo, var: str, scope: List[ast.AST], depth: int = 0) -> List[Tuple[FunctionInfo, ast.AST]]:
     """uses of `var` within `scope` (nodes of fi) that are not under a non-re-raising catch-all handler"""
-    guarded = _guarded_ids(fi.node)
+    guarded = _guarded_ids(fi.node, repo, fi)
     bad: List[Tuple[FunctionInfo, ast.AST]] = []
     parents: Dict[int, ast.AST] = {}
     for root in scope:
